@@ -167,5 +167,5 @@ def drive_graph(ctx, rng, steps=14):
                 if g2.nodes and rng.random() < 0.7:
                     g2.remove_node(rng.choice(g2.nodes))
         except Exception:
-            raise
+            pass          # the tracer has logged the call with res = 'exc'; validation judges it
     return g
